@@ -47,6 +47,7 @@ def denote1 (lp : Nat → Option Nat) : Insn → DInsn → Bool
   | .invokeinterface i desc, .invokeinterface i' c' => i == i' && (match argsSize desc with | .ok c => c == c' | _ => false)
   | .newarray t, .newarray t' => t == t'
   | .multianewarray i d, .multianewarray i' d' => i == i' && d == d'
+  | .invokedynamic i, .invokedynamic i' => i == i'
   | _, _ => false
 
 /-- the decoded items, starting with the one for instruction number `k`, denote the instructions `is`;
@@ -96,5 +97,6 @@ def wt : Insn → Bool
   | .invokeinterface idx _ => decide (idx ≤ 65535)
   | .newarray t => decide (t ≤ 255)
   | .multianewarray idx d => decide (idx ≤ 65535) && decide (d ≤ 255)
+  | .invokedynamic idx => decide (idx ≤ 65535)
 
 end CodeDenote
